@@ -137,6 +137,13 @@ pub fn gen_c01(ctx: &Ctx, rng: &mut Rng, out: &mut Vec<String>) {
             // line, a leading empty block, a two-byte first block)
             let layout = [0u64, 14, 25, 38, 1, 13, 26, 37][(i / 5) % 8];
             out.push(format!("c01.cli\t{container}\tpath\t4\t{layout}\t{}\t{c}\t{sl}\tN\t0\t{}\t{}", (i % 2), if i % 4 == 0 { "3" } else { "-" }, records_str(&recs)));
+            // the same call set under --strict, with the genotypes of the listed samples made complete: whatever the unlisted samples
+            // carry (missing, multiallelic, other ploidy) the run succeeds with the same spectrum
+            if i % 3 == 0 && !all {
+                let mut strict_recs = recs.clone();
+                for r in strict_recs.iter_mut() { for (k, a) in eff_assign.iter().enumerate() { if a.is_some() && !["0/0", "0/1", "1/0", "1/1", "0|0", "0|1", "1|0", "1|1"].contains(&r.2[k].as_str()) { r.2[k] = "0|1".into(); } else if a.is_none() && k % 2 == 0 { r.2[k] = ["./.", "1/2", ".", "0/0/1"][(k / 2 + r.1) % 4].into(); } } }
+                out.push(format!("c01.cli\t{container}\tpath\t4\t{layout}\t{}\t{c}\t{sl}\tN\t1\t-\t{}", (i % 2), records_str(&strict_recs)));
+            }
             // byte level (the model decodes the container itself); sample lists given by file are left to the `.cli` form
             if i % 3 == 0 && !sl.starts_with("S:") {
                 let rs = records_str(&recs);
@@ -271,6 +278,8 @@ pub fn gen_c09(ctx: &Ctx, rng: &mut Rng, out: &mut Vec<String>) {
         // … and via a samples file with Windows line endings (CR LF after every line; CR LF between the lines only)
         if i % 4 == 1 { out.push(format!("c09.cli\tvcf\tpath\t4\t0\t0\t{}\t{}\tN\t0\t-\t{}", c.join(","), samples_arg(&base_order, &assign, unnamed, true).replacen("S:", "R:", 1), records_str(&recs))); }
         if i % 4 == 3 { out.push(format!("c09.cli\tvcf\tpath\t4\t0\t0\t{}\t{}\tN\t0\t-\t{}", c.join(","), samples_arg(&base_order, &assign, unnamed, true).replacen("S:", "Q:", 1), records_str(&recs))); }
+        // … and one whose last line carries a byte that is not valid UTF-8: no list can be read from it, the run must fail
+        if i % 6 == 2 { out.push(format!("c09.cli\tvcf\tpath\t4\t0\t0\t{}\t{}\tN\t0\t-\t{}", c.join(","), samples_arg(&base_order, &assign, unnamed, true).replacen("S:", "L:", 1), records_str(&recs))); }
         // (b) permuted list entries (labels may change first-appearance order: axes permute; the model follows)
         for _ in 0..3 {
             let mut o = base_order.clone(); g.rng.shuffle(&mut o);
@@ -467,6 +476,8 @@ pub fn gen_c10(ctx: &Ctx, rng: &mut Rng, out: &mut Vec<String>) {
 
 pub fn gen_c02(ctx: &Ctx, rng: &mut Rng, out: &mut Vec<String>) {
     gen_mass(ctx, "c02", out);
+    // the operator rows `create` applies, with far tails many orders of magnitude below the rest: every coefficient against its own exact value
+    for (n, k, m) in [(100usize, 50usize, 40usize), (90, 40, 40), (60, 30, 50)] { out.push(format!("c03.row\t{}\t{}\t{}", n + 1, k, m + 1)); }
     let mut g = Gen { rng };
     // exhaustive: 2 populations, sizes <= 2, every target m_j in 0..2n_j, all missingness patterns of one record (in-process)
     for n0 in 1..=2usize { for n1 in 1..=2usize {
@@ -598,6 +609,18 @@ pub fn gen_c12(ctx: &Ctx, rng: &mut Rng, out: &mut Vec<String>) {
                 if let Some(l) = crate::create::bytes_case(&cs, container, [0u64, 1, 2, 3, 14, 25, 38, 13, 26, 37][(i + ci) % 10], &cols(ncols).join(","), &sl, &proj, "0", if proj == "N" { "-" } else { "6" }, &rs) { out.push(l); }
             }
         }
+    }
+    // a projected run whose sites fall into hundreds of distinct (called, ALT) classes, printed with 17 decimals: the last bit of every
+    // entry must not depend on the thread count, the container or the block layout
+    for rep in 0..(if ctx.tier_thorough { 3 } else { 1 }) {
+        let ncols = 14; let nrec = 1500 + 700 * rep;
+        let assign: Vec<Option<usize>> = vec![Some(0); ncols];
+        let recs: Vec<(String, usize, Vec<String>)> = (0..nrec).map(|r| {
+            let f = g.rng.below(100);
+            ("1".to_string(), 1 + r, (0..ncols).map(|_| if g.rng.below(100) < 12 { "./.".to_string() } else { let a = (g.rng.below(100) < f) as u8; let b = (g.rng.below(100) < f) as u8; format!("{a}{}{b}", if g.rng.chance(1, 2) { "/" } else { "|" }) }).collect())
+        }).collect();
+        let _ = &assign;
+        out.push(format!("c12.same\t0\t{}\tN\tind:{}\t0\t17\t{}", cols(ncols).join(","), 4 + rep, records_str(&recs)));
     }
     // sample lists that repeat a sample (the later entry decides its population): a population may lose its only sample, the
     // remaining ones must keep first-appearance order in every run (hash-ordered containers must not reach the output)
